@@ -1,7 +1,7 @@
 ----------------------------- MODULE MC_Charset -----------------------------
 EXTENDS Charset, TLC, Json
 VARIABLES row, done
-Init == row \in [ct : CtShapes, req : BOOLEAN, sess : BOOLEAN, op : Ops] /\ done = FALSE
+Init == row \in [ct : CtShapes, req : ReqVals, sess : BOOLEAN, op : Ops] /\ done = FALSE
 Next == ~done /\ done' = TRUE /\ UNCHANGED row
 Spec == Init /\ [][Next]_<<row, done>>
 TableOK == ExplicitIgnoresHeader /\ HeaderFirst /\ RequestOverSession /\ FallbackLast
